@@ -43,6 +43,7 @@ def cases(draw):
     prog = draw(G.programs(max_stmts=6, sems=("least",), deterministic=True, wfcond_fail=False, wait_all=True))
     return {
         "prog": prog,
+        "limits": draw(st.sampled_from([{}, {}, {}, {"checkpoint": 300}, {"checkpoint": 120}])),
         "backend": draw(G.backend_cfgs()),
         "plan": {"crashes": draw(G.crash_plans(max_crashes=2))},
         "sched": draw(G.schedules()),
